@@ -970,10 +970,29 @@ pub fn main(args: &Args) -> Result<()> {
         ops: parse("ops")?,
       };
       if let Some(f) = v.get("faults").and_then(|f| f.as_array()) {
-        let plan: Vec<(usize, When)> = f
-          .iter()
-          .map(|p| Ok((p[0].as_u64().unwrap_or(0) as usize, When::parse(p[1].as_str().unwrap_or("before"))?)))
-          .collect::<Result<_>>()?;
+        // a fault is [call number, when] or - robust against changes of the call count -
+        // [trait call, path class, k, when]: the k-th such call after the previous fault
+        let mut plan: Vec<(usize, When)> = Vec::new();
+        for p in f.iter() {
+          if p[0].is_u64() {
+            plan.push((p[0].as_u64().unwrap_or(0) as usize, When::parse(p[1].as_str().unwrap_or("before"))?));
+            continue;
+          }
+          let (name, cls) = (p[0].as_str().unwrap_or(""), p[1].as_str().unwrap_or(""));
+          let k = p[2].as_u64().unwrap_or(1).max(1) as usize;
+          let from = plan.last().map(|(i, _)| i + 1).unwrap_or(0);
+          let probe = execute(&sc, &plan, true)?;
+          let at = probe
+            .log
+            .iter()
+            .enumerate()
+            .skip(from)
+            .filter(|(_, (n, c))| *n == name && c == cls)
+            .map(|(i, _)| i)
+            .nth(k - 1)
+            .ok_or_else(|| anyhow!("script: no call {name} [{cls}] #{k} after call {from}"))?;
+          plan.push((at, When::parse(p[3].as_str().unwrap_or("before"))?));
+        }
         let o = execute(&sc, &plan, true)?;
         if args.flag("list") {
           for (i, (name, cls)) in o.log.iter().enumerate() {
